@@ -441,7 +441,7 @@ def check_sibling(ctx, setup, s1, lip, s2):
         want = '(%s)' % ','.join(s1['names'])
         ok = U(m).replace(' ', '') == want
         detail = ''
-        if not ok and isinstance(m, ast.Tuple) and len(m.elts) == 4:
+        if isinstance(m, ast.Tuple) and len(m.elts) == 4:
             # whitening at setup: the tuple may hold (Q*a, y*b, n', proj) as long as the residual the loss will form from it,
             # (Q' x - y') / n', is still (Q x - y) / noise:  a / n' == b / n' == 1 / noise
             ok, detail = whitened_ok(s1['outer'].body, m, s1['names'])
